@@ -36,7 +36,8 @@ Lemma generated_equal :
   /\ g_PoolParameters = s_pool_parameters /\ g_CommissionRanges = s_commission_ranges /\ g_MintRate = s_mint_rate
   /\ g_FinalizationCommitteeParameters = s_finalization_committee_parameters /\ g_AuthorizationsV0 = s_authorizations_v0
   /\ g_AmountFraction = s_amount_fraction /\ g_UpdateKeysThreshold = s_update_keys_threshold
-  /\ g_TransactionTime = s_transaction_time /\ g_UpdatePublicKey = s_verify_key.
+  /\ g_TransactionTime = s_transaction_time /\ g_UpdatePublicKey = s_verify_key
+  /\ g_ArInfo_ArCurve = s_ar_info /\ g_Description = s_description.
 Proof. repeat split; reflexivity. Qed.
 
 (** Derived [Serial] with a hand-written [Deserial]: same layout (the hand-written term adds the decoder's checks). *)
@@ -55,7 +56,7 @@ Proof. repeat split; reflexivity. Qed.
 
 (** The pairs listed by the translator are exactly the ones proved above (so that a type added to the
     translator's tables without a lemma is noticed). *)
-Lemma tie_tables_sizes : length gen_equal_pairs = 15%nat /\ length gen_layout_pairs = 13%nat.
+Lemma tie_tables_sizes : length gen_equal_pairs = 17%nat /\ length gen_layout_pairs = 13%nat.
 Proof. split; reflexivity. Qed.
 
 (** Every generated term is well formed ... *)
